@@ -271,6 +271,30 @@ impl Def {
         self.pats = skips;
     }
 
+    /// The same definition with its variants declared in another order (rotated by `k`): the same set of
+    /// patterns, priorities and callbacks, other leaf numbers.
+    pub fn rotated_variants(&self, k: usize) -> Def {
+        let n = self.variants.len();
+        let mut d = self.clone();
+        if n < 2 {
+            return d;
+        }
+        let map = |v: usize| (v + k) % n;
+        for (old, kind) in self.variants.iter().enumerate() {
+            d.variants[map(old)] = kind.clone();
+        }
+        for p in d.pats.iter_mut() {
+            if p.kind != PatKind::Skip {
+                p.variant = map(p.variant);
+            }
+            if let Some(cb) = p.cb.as_mut() {
+                cb.target = map(cb.target);
+            }
+        }
+        d.normalize();
+        d
+    }
+
     pub fn has_callbacks(&self) -> bool {
         self.pats.iter().any(|p| p.cb.is_some())
     }
